@@ -1,7 +1,7 @@
 import OdxVerif.Proofs.CompExtEndMarker
 import OdxVerif.Proofs.CompExtMatching
 import OdxVerif.Proofs.CompExtCursor
-import OdxVerif.Proofs.CompExtFieldsM
+import OdxVerif.Proofs.CompExtFieldsD
 /-! Compositional components, extension W11: the inductive predicate **`Described2`** — `Described` of
     `Proofs/CompDescribed.lean` with every constructor restated over parameters that carry the flag `mid` ("can only be
     encoded while `is_end_of_pdu` is cleared", `MComp`), STRUCTUREs and field items with optional BYTE-SIZE, and the new
@@ -104,6 +104,36 @@ theorem structItemsS_ok (bso : Option Nat) (shape : List Param) (items : List (L
   · rw [DComp.structO_dop, hshape]
   · rw [DComp.structO_eopOnly]; exact hno
 
+/-- the flag of the last item of a field: the dynamic fields encode every item but the last with `is_end_of_pdu` cleared -/
+def itemsLastMid (items : List (List MComp)) : Bool :=
+  match items.getLast? with
+  | some k => MComps.lastMid k
+  | none => false
+
+theorem itemsO_lastM (bso : Option Nat) (shape : List Param) (items : List (List MComp))
+    (ih : ∀ k ∈ items, ∀ m ∈ k, (∀ P, m.c.OkM m.mid P) ∧ m.c.EndOk) (hside : ∀ k ∈ items, itemSideS bso shape k) :
+    ∀ c, (itemsO bso items).getLast? = some c → c.OkM (itemsLastMid items) := by
+  intro c hc
+  simp only [itemsO, List.getLast?_map] at hc
+  unfold itemsLastMid
+  cases hl : items.getLast? with
+  | none => rw [hl] at hc; cases hc
+  | some k =>
+    rw [hl] at hc
+    simp only [Option.map_some, Option.some.injEq] at hc
+    subst hc
+    have hk : k ∈ items := List.mem_of_getLast? hl
+    obtain ⟨_, hn, hno, hsz⟩ := hside k hk
+    have hok := MComps.okAll_of_forall (fun _ => True) k (fun m hm => (ih k hk m hm).1 _)
+    exact DComp.structOM_okM bso k hok hn (Comps.eopLast_of_noEop _ hno) hsz
+
+theorem itemsLastMid_false (items : List (List MComp)) (h : ∀ k, items.getLast? = some k → MComps.midNotLast k) :
+    itemsLastMid items = false := by
+  unfold itemsLastMid
+  cases hl : items.getLast? with
+  | none => rfl
+  | some k => exact h k hl
+
 /-- **the described parameters, second edition**: `Described2 g mid` — `mid`: the parameter can only be encoded while
     `is_end_of_pdu` is cleared, i.e. not as the last parameter of its structure -/
 inductive Described2 : Comp → Bool → Prop
@@ -128,12 +158,13 @@ inductive Described2 : Comp → Bool → Prop
   | dynLenField (name : String) (bp : Option Nat) (l : DynLayout) (bso : Option Nat) (shape : List Param)
       (items : List (List MComp)) :
       (∀ k ∈ items, ∀ m ∈ k, Described2 m.c m.mid) →
-      (∀ k ∈ items, itemSide2 bso shape k ∧ 1 ≤ (DComp.structO bso (MComps.cs k)).size) → l.ok items.length →
-      Described2 (Comp.ofValue name bp (DComp.dynLenField l (.struct bso shape) (itemsO bso items))) false
+      (∀ k ∈ items, itemSideS bso shape k ∧ 1 ≤ (DComp.structO bso (MComps.cs k)).size) → l.ok items.length →
+      Described2 (Comp.ofValue name bp (DComp.dynLenField l (.struct bso shape) (itemsO bso items))) (itemsLastMid items)
   | eopField (name : String) (bp : Option Nat) (mn mx : Option Nat) (bso : Option Nat) (shape : List Param)
       (items : List (List MComp)) :
       (∀ k ∈ items, ∀ m ∈ k, Described2 m.c m.mid) →
-      (∀ k ∈ items, itemSide2 bso shape k ∧ 1 ≤ (DComp.structO bso (MComps.cs k)).size) →
+      (∀ k ∈ items, itemSideS bso shape k ∧ 1 ≤ (DComp.structO bso (MComps.cs k)).size) →
+      (∀ k, items.getLast? = some k → MComps.midNotLast k) →
       Described2 (Comp.ofValue name bp (DComp.eopField mn mx (.struct bso shape) (itemsO bso items))) false
   | mux (name : String) (bp : Option Nat) (m : MuxLayout) (ms : List MComp) :
       (∀ x ∈ ms, Described2 x.c x.mid) → Comps.namesOk (MComps.cs ms) → Comps.eopLast (MComps.cs ms) →
@@ -142,13 +173,14 @@ inductive Described2 : Comp → Bool → Prop
   | endMarkerEop (name : String) (bp : Option Nat) (l : EmLayout) (bso : Option Nat) (shape : List Param)
       (items : List (List MComp)) :
       (∀ k ∈ items, ∀ m ∈ k, Described2 m.c m.mid) → l.ok →
-      (∀ k ∈ items, itemSide2 bso shape k ∧ 1 ≤ (DComp.structO bso (MComps.cs k)).size ∧
+      (∀ k ∈ items, itemSideS bso shape k ∧ 1 ≤ (DComp.structO bso (MComps.cs k)).size ∧
         l.miss (DComp.structO bso (MComps.cs k))) →
+      (∀ k, items.getLast? = some k → MComps.midNotLast k) →
       Described2 (Comp.ofValue name bp (DComp.endMarkerEop l (.struct bso shape) (itemsO bso items))) false
   | endMarkerMid (name : String) (bp : Option Nat) (l : EmLayout) (bso : Option Nat) (shape : List Param)
       (items : List (List MComp)) :
       (∀ k ∈ items, ∀ m ∈ k, Described2 m.c m.mid) → l.ok →
-      (∀ k ∈ items, itemSide2 bso shape k ∧ 1 ≤ (DComp.structO bso (MComps.cs k)).size ∧
+      (∀ k ∈ items, itemSideS bso shape k ∧ 1 ≤ (DComp.structO bso (MComps.cs k)).size ∧
         l.miss (DComp.structO bso (MComps.cs k))) →
       Described2 (Comp.ofValue name bp (DComp.endMarkerMid l (.struct bso shape) (itemsO bso items))) true
 
@@ -185,16 +217,19 @@ theorem Described2.ok {g : Comp} {mid : Bool} (h : Described2 g mid) : (∀ P, g
     obtain ⟨k, hk, rfl⟩ := itemsO_mem hc
     exact (hside k hk).2
   | dynLenField name bp l bso shape items _ hside hl ih =>
-    have hitems := structItems2_ok bso shape items ih (fun k hk => (hside k hk).1)
-    refine ⟨fun P => (Comp.ofValue_ok name bp _ (DComp.dynLenField_ok l _ _ (by simpa [itemsO] using hl) ?_)).toM _ P,
+    have hitems := structItemsS_ok bso shape items ih (fun k hk => (hside k hk).1)
+    have hlastM := itemsO_lastM bso shape items ih (fun k hk => (hside k hk).1)
+    refine ⟨fun P => Comp.ofValueM_ok name bp _ _ (DComp.dynLenFieldM_okM l _ _ _ (by simpa [itemsO] using hl) ?_ hlastM) P,
       Comp.ofValue_endOk name bp _ (DComp.dynLenField_endOk l _ _)⟩
     intro c hc
     refine ⟨(hitems c hc).1, (hitems c hc).2, ?_⟩
     obtain ⟨k, hk, rfl⟩ := itemsO_mem hc
     exact (hside k hk).2
-  | eopField name bp mn mx bso shape items _ hside ih =>
-    have hitems := structItems2_ok bso shape items ih (fun k hk => (hside k hk).1)
-    refine ⟨fun P => (Comp.ofValue_ok name bp _ (DComp.eopField_ok mn mx _ _ ?_)).toM _ P,
+  | eopField name bp mn mx bso shape items _ hside hlm ih =>
+    have hitems := structItemsS_ok bso shape items ih (fun k hk => (hside k hk).1)
+    have hlastM := itemsO_lastM bso shape items ih (fun k hk => (hside k hk).1)
+    rw [itemsLastMid_false items hlm] at hlastM
+    refine ⟨fun P => (Comp.ofValue_ok name bp _ (DComp.eopFieldM_ok mn mx _ _ ?_ hlastM)).toM _ P,
       Comp.ofValue_endOk name bp _ (DComp.eopField_endOk mn mx _ _)⟩
     intro c hc
     refine ⟨(hitems c hc).1, (hitems c hc).2, ?_⟩
@@ -207,16 +242,18 @@ theorem Described2.ok {g : Comp} {mid : Bool} (h : Described2 g mid) : (∀ P, g
       exact (ih x hx).2)
     exact ⟨fun P => Comp.ofValueM_ok name bp _ _ (DComp.mux_okM m _ _ (DComp.structM_okM ms hok hn hlast) hm) P,
       Comp.ofValue_endOk name bp _ (DComp.mux_endOk m _ (DComp.structM_endOk ms hok hend hlast))⟩
-  | endMarkerEop name bp l bso shape items _ hl hside ih =>
-    have hitems := structItems2_ok bso shape items ih (fun k hk => (hside k hk).1)
-    refine ⟨fun P => (Comp.ofValue_ok name bp _ (DComp.endMarkerEop_ok l hl _ _ ?_)).toM _ P,
+  | endMarkerEop name bp l bso shape items _ hl hside hlm ih =>
+    have hitems := structItemsS_ok bso shape items ih (fun k hk => (hside k hk).1)
+    have hlastM := itemsO_lastM bso shape items ih (fun k hk => (hside k hk).1)
+    rw [itemsLastMid_false items hlm] at hlastM
+    refine ⟨fun P => (Comp.ofValue_ok name bp _ (DComp.endMarkerEop_ok l hl _ _ ?_ hlastM)).toM _ P,
       Comp.ofValue_endOk name bp _ (DComp.endMarkerEop_endOk l _ _)⟩
     intro c hc
     refine ⟨(hitems c hc).1, (hitems c hc).2, ?_⟩
     obtain ⟨k, hk, rfl⟩ := itemsO_mem hc
     exact (hside k hk).2
   | endMarkerMid name bp l bso shape items _ hl hside ih =>
-    have hitems := structItems2_ok bso shape items ih (fun k hk => (hside k hk).1)
+    have hitems := structItemsS_ok bso shape items ih (fun k hk => (hside k hk).1)
     refine ⟨fun P => Comp.ofValueM_ok name bp _ true (DComp.endMarkerMid_ok l hl _ _ ?_) P,
       Comp.ofValue_endOk name bp _ (DComp.endMarkerMid_endOk l _ _)⟩
     intro c hc
@@ -245,6 +282,18 @@ theorem itemSide2_ofComps (shape : List Param) (k : List Comp) (h : itemSide sha
 
 theorem structO_size_ofComps (k : List Comp) : (DComp.structO none (MComps.cs (MComps.ofComps k))).size = Comps.cur k 0 0 := by
   rw [MComps.cs_ofComps]; rfl
+
+theorem lastMid_map_ofComps (items : List (List Comp)) :
+    ∀ k, (items.map MComps.ofComps).getLast? = some k → MComps.midNotLast k := by
+  intro k hk
+  simp only [List.getLast?_map] at hk
+  cases hl : items.getLast? with
+  | none => rw [hl] at hk; cases hk
+  | some k0 =>
+    rw [hl] at hk
+    simp only [Option.map_some, Option.some.injEq] at hk
+    subst hk
+    exact MComps.midNotLast_ofComps k0
 
 /-- **every `Described` parameter is `Described2`** (with the flag cleared): the new theorems cover the old instances -/
 theorem Described.to2 {g : Comp} (h : Described g) : Described2 g false := by
@@ -278,9 +327,9 @@ theorem Described.to2 {g : Comp} (h : Described g) : Described2 g false := by
         exact ih k0 hk0 g hg)
       (fun k hk => by
         obtain ⟨k0, hk0, rfl⟩ := List.mem_map.mp hk
-        exact ⟨itemSide2_ofComps shape k0 (hside k0 hk0).1, by rw [structO_size_ofComps]; exact (hside k0 hk0).2⟩)
+        exact ⟨(itemSide2_ofComps shape k0 (hside k0 hk0).1).toS, by rw [structO_size_ofComps]; exact (hside k0 hk0).2⟩)
       (by simpa using hl)
-    rw [itemsO_ofComps] at h
+    rw [itemsO_ofComps, itemsLastMid_false _ (lastMid_map_ofComps items)] at h
     exact h
   | eopField name bp mn mx shape items _ hside ih =>
     have h := Described2.eopField name bp mn mx none shape (items.map MComps.ofComps)
@@ -290,7 +339,8 @@ theorem Described.to2 {g : Comp} (h : Described g) : Described2 g false := by
         exact ih k0 hk0 g hg)
       (fun k hk => by
         obtain ⟨k0, hk0, rfl⟩ := List.mem_map.mp hk
-        exact ⟨itemSide2_ofComps shape k0 (hside k0 hk0).1, by rw [structO_size_ofComps]; exact (hside k0 hk0).2⟩)
+        exact ⟨(itemSide2_ofComps shape k0 (hside k0 hk0).1).toS, by rw [structO_size_ofComps]; exact (hside k0 hk0).2⟩)
+      (lastMid_map_ofComps items)
     rw [itemsO_ofComps] at h
     exact h
   | mux name bp m gs _ hn hlast hm ih =>
